@@ -147,7 +147,7 @@ def vclass_of_scheme(scheme):
     rc = R.RANGE_CLASS_BY_SCHEMES.get(scheme)
     if rc is None:
         return None
-    return rc.__dict__.get("_corr_orig_vc", None) or ORIG_VC.get(rc, rc.version_class)
+    return ORIG_VC.get(rc, rc.version_class)
 
 
 ORIG_VC = {}
@@ -202,11 +202,6 @@ def pick_scheme(rng, pool=None):
     if rng.random() < 0.03:
         return pick(rng, BAD_SCHEMES)
     return pick(rng, pool or REG_SCHEMES)
-
-
-def as_arg(rng, strings):
-    """the `string_or_list` argument: a list, or the single string when there is one"""
-    return strings
 
 
 def gen_cmp_item(rng, scheme, keys, foreign, glue_ws=True):
